@@ -426,6 +426,10 @@ func (t Table) Lookup(req *http.Request, trace string, pick picker, match matche
 		if target = t.lookup(h, req.URL.Path, trace, pick, match); target != nil {
 			if target.RedirectCode != 0 {
 				req.URL.Host = req.Host
+				// the redirect url depends on the request. Build it on a copy of the
+				// target since the target itself is shared by all requests.
+				redirect := *target
+				target = &redirect
 				target.BuildRedirectURL(req.URL) // build redirect url and cache in target
 				if target.RedirectURL.Scheme == req.Header.Get("X-Forwarded-Proto") &&
 					target.RedirectURL.Host == req.Host &&
